@@ -27,6 +27,7 @@
 (*   error   errs <<[name,args]>> tool errors found in the error chain /   *)
 (*           text, panic BOOLEAN (the text reports a recovered panic)      *)
 (*   escaped a panic reached the caller of Invoke/Stream/Recv              *)
+(*   hang    the call had not returned when the harness's watchdog fired   *)
 (*   end     end of the case                                               *)
 (*                                                                         *)
 (* What is demanded (nothing else):                                        *)
@@ -44,7 +45,8 @@
 (*      panicked, no unhandled unknown name) the error is the error of     *)
 (*      one of the failing tools;                                          *)
 (*   R4 inside a graph a panic never reaches the caller.  Outside a graph  *)
-(*      an escaping panic of a panicking tool is not judged.               *)
+(*      an escaping panic of a panicking tool is not judged;               *)
+(*   R5 the call returns (with a list or an error): it never hangs.        *)
 (***************************************************************************)
 EXTENDS Naturals, Sequences, FiniteSets, TLC, Json
 
@@ -124,6 +126,7 @@ Apply(S, e) ==
          [] e.ev = "result" -> ResultRule(S, e)
          [] e.ev = "error" -> ErrorRule(S, e)
          [] e.ev = "escaped" -> EscapedRule(S, e)
+         [] e.ev = "hang" -> Bad(S, "call-hangs")      \* R5: the call returns (spec/ToolsNode.tla: Terminates holds for every completion order)
          [] e.ev = "end" -> IF S.term = "" THEN Bad([S EXCEPT !.open = FALSE], "neither-result-nor-error")
                             ELSE [S EXCEPT !.open = FALSE]
          [] OTHER -> Bad(S, "unknown-observation")
